@@ -106,6 +106,8 @@ package pcs
 //@   ensures err != nil ==> result0 == nil
 //@   ensures err == nil ==> result0 != nil && result0.Status != statusFieldMissing
 //@   loop 1 invariant forall j int :: 0 <= j && j < idx() ==> !LvlMatches(&ti.TCBLevels[j], sgxCompSvn, tdxCompSvn, pcesvn)
+//@   ensures-local err == nil && ti.ID == tcbInfoTDX && (*tdxCompSvn)[1] >= 1 ==> defined(matchedModuleTCBLevel) && matchedModuleTCBLevel != nil && matchedModuleTCBLevel.Status == StatusUpToDate
+//@   note for a TDX quote whose TEE TCB SVN names a TDX module version of 1 or more (index 1), a level is returned only if the Intel-signed identity of THAT module version was found and the module TCB level selected for the quote's minor SVN (index 0) is UpToDate: TCBLevel.matches skips indices 0 and 1 for such quotes, so this evaluation is the only place the module's SVN is checked (seed C18_h evaluated the module only for versions above 1: an out-of-date 1.x module was accepted)
 //@   note the level returned carries a status; inside the selection loop every earlier level is shown not to match (loop invariant, discharged), but carrying "first matching level" to the return across the TDX module evaluation exceeds the solvers' quantifier instantiation within the time limits and is NOT part of the postcondition
 
 //@ func TCBInfo.validateTCBLevel
